@@ -118,7 +118,7 @@ def _run_msd(with_rot=True, diag=False):
         rot = I.new_floats([P(F(0))] * 9)
         return [I.new_floats(M), Ga, Gb, 4, 1 if with_rot else 0, rot], {"M": M, "Ga": Ga, "Gb": Gb, "lam": lam, "rot": rot}
     paths = []
-    for I, ctx, ret in L.explore(mod, MSD, setup, timeout_ms=30000, max_paths=16, exact=diag):
+    for I, ctx, ret in L.explore(mod, MSD, setup, timeout_ms=30000, max_paths=64, exact=diag):
         paths.append({"ret": ret, "rot": I.get_floats(ctx["rot"], 9), "path": list(I.path), "side": list(I.side), "fnapps": list(I.fnapps), "ctx": ctx, "direct": got.get("direct_args"), "I": I})
     return mod, paths
 
@@ -609,7 +609,7 @@ def degenerate_branch(repeated: bool = False):
         kvals = [subst(Kd[i], point).cval() for i in range(4)]
         if all(v == 0 for v in vals) and max(kvals) == 1 and kvals[0] < 1:
             R_.problems.append(f"largest eigenvalue repeated (K = diag{tuple(int(k) for k in kvals)}, b = -a): every adjugate row vanishes, the identity is returned, but <I,M> = {int(kvals[0])} < lambda = 1")
-    return R_.verdict({"paths": len(paths), "ir_instructions": mod.ninsns, "threshold_note": "identity only if prod of eigenvalue gaps < 3.2e-6 (|q|^2 < 1e-11)"}, lambda: _replay_180(repeated))
+    return R_.verdict({"paths": len(paths), "ir_instructions": mod.ninsns, "threshold_note": "identity only if every adjugate row has |q|^2 < 1e-11 ((G_a+G_b)/2)^6 (relative cutoff)"}, lambda: _replay_180(repeated))
 
 
 _REPLAY_180 = r'''
@@ -622,6 +622,9 @@ lib = ctypes.CDLL(so); lib.msd_atom_major.restype = ctypes.c_float; lib.rot_msd_
 fp = lambda x: x.ctypes.data_as(ctypes.c_void_p)
 rng = np.random.RandomState(0); bad = 0
 a = rng.randn(1, 7, 3).astype(np.float32)
+if %(repeated)r:
+    # an ISOTROPIC structure (second-moment matrix proportional to the identity): M = -c I for b = -a, the top eigenvalue of K is triple
+    a = np.array([[[1, 0, 0], [-1, 0, 0], [0, 1, 0], [0, -1, 0], [0, 0, 1], [0, 0, -1], [0, 0, 0]]], dtype=np.float32) * 0.5
 cases = (("180 degrees about z", np.diag([-1.0, -1.0, 1.0])), ("180 degrees about x", np.diag([1.0, -1.0, -1.0]))) if not %(repeated)r else (("point inversion (b = -a)", -np.eye(3)),)
 for name, D in cases:
     b = (a[0] @ D.T)[None].astype(np.float32)
@@ -694,6 +697,116 @@ def small_scale(direction: str = "rot40"):
         return {**res, "status": "cex", "detail": "for some scale s in [1e-4, 1] the identity rotation is returned for a perfectly superposable pair",
                 "cex": {"goal": "small_scale", "key": "small_scale", "inputs": {"direction": direction}, "reproduced": rep, "replay_script": script}}
     return {**res, "status": "holds", "twin_ok": rows > 0}
+
+
+def row_selection():
+    """which row of adj(K - lambda I) becomes the quaternion?  Every row is a multiple of the eigenvector, but the first one is q0 * q: it is
+    zero up to float32 rounding for (nearly) 180-degree rotations, and rounding noise must not be normalised into a 'rotation'.  Claim, on every
+    path of msdFromMandG (symbolic M, G_a, G_b, lambda; polynomials named by monomial, so the path conditions and the claim are linear):
+      a rotation from row 0      => |row 0|^2 >= t (G/2)^6 for a RELATIVE cutoff t >= 1e-9 (G = G_a + G_b), or row 0 has the largest norm
+      a rotation from row i >= 1 => |row i|^2 >= |row j|^2 for every j
+      the identity fallback      => every |row j|^2 <= 1e-6 (G/2)^6
+    with the rows computed here as signed minors of K - lambda I (independent of cofactor4).  A counterexample is only reported when a
+    native build of the current sources returns a non-optimal rotation on a sweep of near-180-degree pairs (N = 3..1001, scales 0.05..8)."""
+    t0 = time.time()
+    R_ = Result()
+    R_.key = "row_selection"
+    mod, paths = _run_msd(True)
+    K = _K_from_code()
+    lam, Ga, Gb = Poly.var("lam"), Poly.var("Ga"), Poly.var("Gb")
+    A = [[K[i][j] - (lam if i == j else P(F(0))) for j in range(4)] for i in range(4)]
+
+    def cof(i, j):
+        m = [[A[r][c] for c in range(4) if c != j] for r in range(4) if r != i]
+        d = det(m)
+        return d if (i + j) % 2 == 0 else P(F(0)) - d
+    rows = [[cof(i, j) for j in range(4)] for i in range(4)]
+    norms = [sum((rows[i][j] * rows[i][j] for j in range(1, 4)), rows[i][0] * rows[i][0]) for i in range(4)]
+    half = (Ga + Gb) * Poly.const(F(1, 2))
+    s3 = half * half * half
+    scale6 = s3 * s3
+    seen = set()
+    for p in paths:
+        I = p["I"]
+        divs = [(qv, a[0], a[1]) for kind, qv, a in p["fnapps"] if kind == "div"]
+        sq = [(v, a[0]) for kind, v, a in p["fnapps"] if kind == "sqrt"]
+        base = [*p["side"], *p["path"], I.emit(scale6) >= 0]
+        if len(divs) < 4 or not sq:
+            goals = [("identity although row %d is above 1e-6 (G/2)^6" % j, I.emit(norms[j]) > rv(F(1, 10**6)) * I.emit(scale6)) for j in range(4)]
+            sel = "identity"
+        else:
+            q = [P(dv[1]) for dv in divs[-4:]]
+            which = [i for i in range(4) if all(same(q[j], rows[i][j]) for j in range(4)) or all(same(P(F(0)) - q[j], rows[i][j]) for j in range(4))]
+            if len(which) != 1:
+                R_.problems.append("the quaternion is not a row of adj(K - lambda I)")
+                continue
+            sel = which[0]
+            others = z3.Or(*[I.emit(norms[j]) > I.emit(norms[sel]) for j in range(4) if j != sel])
+            if sel == 0:
+                goals = [("row 0 used without a relative lower bound and without being the largest", z3.And(others, I.emit(norms[0]) < rv(F(1, 10**9)) * I.emit(scale6)))]
+            else:
+                goals = [(f"row {sel} used although another row has a larger norm", others)]
+        seen.add(sel)
+        for name, g in goals:
+            sol = z3.Solver()
+            sol.set("timeout", 30000)
+            sol.add(*base, g)
+            t = time.time()
+            r = sol.check()
+            R_.zs += time.time() - t
+            R_.n += 1
+            if r == z3.sat:
+                R_.problems.append(name)
+            elif r != z3.unsat:
+                return {"status": "inconclusive", "detail": "solver: unknown on " + name}
+    if not ({0, "identity"} <= seen and seen & {1, 2, 3}):
+        return {"status": "inconclusive", "detail": f"expected paths through row 0, a fallback row and the identity; found {sorted(map(str, seen))}: the structure of msdFromMandG is not the one this obligation encodes"}
+    return R_.verdict({"paths": len(paths), "ir_instructions": mod.ninsns, "wall_s": round(time.time() - t0, 2)}, _replay_sweep)
+
+
+_REPLAY_SWEEP = r"""
+import sys, ctypes, tempfile, subprocess, os, numpy as np
+def _die(*a):
+    import traceback; traceback.print_exception(*a); os._exit(3)
+sys.excepthook = _die
+REPO = os.environ.get("VT_REPO", "/repo"); R = REPO + "/mdtraj/rmsd"
+d = tempfile.mkdtemp(); so = d + "/r.so"
+subprocess.check_call(["g++", "-O2", "-shared", "-fPIC", "-D__NO_INTRINSICS", "-I" + R + "/include", "-I" + R + "/src", R + "/src/theobald_rmsd.cpp", R + "/src/rotation.cpp", R + "/src/center.cpp", "-o", so])
+lib = ctypes.CDLL(so); lib.msd_atom_major.restype = ctypes.c_float; lib.rot_msd_atom_major.restype = ctypes.c_float
+fp = lambda x: x.ctypes.data_as(ctypes.c_void_p)
+rng = np.random.RandomState(1); bad = 0; n = 0
+def rotm(axis, ang):
+    axis = axis / np.linalg.norm(axis); K = np.array([[0, -axis[2], axis[1]], [axis[2], 0, -axis[0]], [-axis[1], axis[0], 0]])
+    return np.eye(3) + np.sin(ang) * K + (1 - np.cos(ang)) * K @ K
+for N in (3, 7, 23, 100, 1001):
+    for scale in (0.05, 1.0, 8.0):
+        for ang in (180.0, 179.99, 179.0, 120.0, 1.0, 0.0):
+            for axis in (np.array([0, 0, 1.0]), np.array([1.0, 0, 0]), rng.randn(3)):
+                a = rng.randn(N, 3) * scale; a -= a.mean(0)
+                Rm = rotm(axis, np.radians(ang)); b = a @ Rm.T + rng.randn(N, 3) * scale * 1e-4
+                pad = ((N + 3) // 4) * 4
+                A = np.zeros((pad, 3), dtype=np.float32); B = np.zeros((pad, 3), dtype=np.float32); A[:N] = a - a.mean(0); B[:N] = b - b.mean(0)
+                Ga = ctypes.c_float(float((A.astype(float) ** 2).sum())); Gb = ctypes.c_float(float((B.astype(float) ** 2).sum())); rot = np.zeros(9, dtype=np.float32)
+                m = lib.msd_atom_major(N, pad, fp(A), fp(B), Ga, Gb, 1, fp(rot)); after = np.sqrt(lib.rot_msd_atom_major(N, pad, fp(A), fp(B), fp(rot)))
+                H = A[:N].astype(float).T @ B[:N].astype(float); U, S_, Vt = np.linalg.svd(H); dd = np.sign(np.linalg.det(U @ Vt))
+                opt = np.sqrt(max(0, ((A[:N].astype(float) @ (U @ np.diag([1, 1, dd]) @ Vt) - B[:N]) ** 2).sum() / N))
+                n += 1
+                if after > opt + 2e-3 * scale:
+                    bad += 1
+                    if bad <= 6: print("N", N, "scale", scale, "angle", ang, "axis", np.round(axis, 2), ": RMSD after the returned rotation", round(float(after), 5), "optimum (SVD)", round(float(opt), 5))
+print("cases", n, "bad", bad)
+sys.exit(1 if bad else 0)
+"""
+
+
+def _replay_sweep():
+    import subprocess
+    import sys
+    with tempfile.NamedTemporaryFile("w", suffix=".py", delete=False) as fh:
+        fh.write(_REPLAY_SWEEP)
+    r = subprocess.run([sys.executable, fh.name], capture_output=True, text=True, env=dict(os.environ, VT_REPO=str(REPO)))
+    os.unlink(fh.name)
+    return r.returncode == 1, _REPLAY_SWEEP + "\n# " + (r.stdout + r.stderr)[-900:].replace("\n", "\n# ")
 
 
 _REPLAY_SMALL = r'''
